@@ -20,5 +20,5 @@ def replay(out, path):
     d = json.load(open(path))["detail"]
     p = vlib.run_bin("parsecheck", [], stdin_data=json.dumps(d["case"]) + "\n")
     for r in vlib.json_lines(p.stdout):
-        if r["kind"] == "mismatch" and r["features"]["what"] == "roundtrip":
+        if r["kind"] == "mismatch" and r["features"]["what"] in ("roundtrip", "panicked"):
             out.report(r["features"], r["detail"])
